@@ -1184,8 +1184,8 @@ fn crypto_roundtrip(offset: VarInt) {
     if probe < length {
         assert!(body[probe] == SEQ[probe], "data byte survives at its position");
     }
-    kani::cover!(length == 64 && size == 1 + 1 + 2);
-    kani::cover!(length == 1 && size == 3);
+    kani::cover!(length == 64, "2-byte length varint");
+    kani::cover!(length == 1, "1-byte length varint");
 }
 
 fn rt_crypto_data_roundtrip() {
